@@ -91,7 +91,7 @@ func c16Exhaustive(ctx *core.Ctx) {
 					i++
 					a := c16Args{Penv: penv, Files: map[string]c16Node{"f1": {Lines: f1}, "f2": {Lines: f2}}, Discard: i%2 == 0,
 						Services: []c16Service{{Name: "s", Environment: env,
-							EnvFiles: []c16EnvFile{{Path: "f1", Required: true}, {Path: "f2", Required: i%3 == 0}}}}}
+							EnvFiles: []c16EnvFile{{Path: "f1", Required: true}, {Path: "f2", Required: i%3 == 0}}}}, Extra: i%4 == 1}
 					ctx.Count("env-exhaustive-2files")
 					ctx.Add("c16.resolve", a)
 				}
@@ -125,7 +125,7 @@ func c16Exhaustive(ctx *core.Ctx) {
 	for x, s1 := range states {
 		for y, s2 := range states {
 			for z, s3 := range states {
-				a := c16Args{Penv: map[string]string{"B": "pB"}, Files: map[string]c16Node{}, Discard: (x+y+z)%2 == 0}
+				a := c16Args{Penv: map[string]string{"B": "pB"}, Files: map[string]c16Node{}, Discard: (x+y+z)%2 == 0, Extra: true}
 				svc := c16Service{Name: "s", Environment: [][2]*string{c16kv("C", nil)}}
 				a.Files["reg"] = c16Node{}
 				for n, s := range []st{s1, s2, s3} {
@@ -147,6 +147,7 @@ func c16Exhaustive(ctx *core.Ctx) {
 				if (x+y+z)%ctx.Pick(5, 1) == 0 {
 					ctx.Count("file-states-load")
 					la := a
+					la.Extra = false
 					la.Services = []c16Service{svc}
 					la.Services[0].YEnv = &c16YEnv{List: &[]c16Item{{K: "C"}}}
 					ctx.Add("c16.load", la)
@@ -324,6 +325,34 @@ func c16RandArgs(r *rand.Rand, malformed, forLoad bool) c16Args {
 				s.YEnv = y
 			}
 			s.Environment = nil
+			// the YAML form of `labels`: typed mapping (as before), sequence (`k=v`, bare `k`, a key twice, `=` inside the
+			// value), mapping with null values, empty sequence / mapping
+			switch r.Intn(4) {
+			case 0:
+				items := []c16Item{}
+				for _, kv := range s.Labels {
+					items = append(items, c16Item{K: *kv[0], V: kv[1]})
+					switch r.Intn(6) {
+					case 0:
+						items = append(items, c16Item{K: c16Keys[r.Intn(len(c16Keys))]}) // bare: the empty value
+					case 1:
+						items = append(items, c16Item{K: *kv[0], V: sp("again=" + *kv[0])}) // the key a second time
+					case 2:
+						items = append([]c16Item{{K: *kv[0]}}, items...) // … or first as a bare element
+					}
+				}
+				s.YLabels, s.Labels = &c16YEnv{List: &items}, nil
+			case 1:
+				m := [][2]*string{}
+				for _, kv := range s.Labels {
+					if r.Intn(3) == 0 {
+						m = append(m, c16kv(*kv[0], nil)) // `k:` null
+					} else {
+						m = append(m, kv)
+					}
+				}
+				s.YLabels, s.Labels = &c16YEnv{Map: &m}, nil
+			}
 		}
 		a.Services = append(a.Services, s)
 	}
@@ -344,6 +373,10 @@ func c16RandomResolve(ctx *core.Ctx) {
 		} else {
 			ctx.Count("random-valid")
 		}
+		if i%3 == 0 {
+			a.Extra = true
+			ctx.Count("random-with-WithServicesEnabled")
+		}
 		ctx.Add("c16.resolve", a)
 	}
 }
@@ -363,6 +396,14 @@ func c16RandomLoad(ctx *core.Ctx) {
 		}
 		if a.SkipResolveEnvironment {
 			ctx.Count("load-skip-resolve-environment")
+		}
+		for _, s := range a.Services {
+			switch {
+			case s.YLabels != nil && s.YLabels.List != nil:
+				ctx.Count("load-labels-sequence-form")
+			case s.YLabels != nil:
+				ctx.Count("load-labels-mapping-with-nulls")
+			}
 		}
 		ctx.Add("c16.load", a)
 	}
